@@ -35,7 +35,11 @@ func quietOptions(store lungo.Store) lungo.Options {
 	return lungo.Options{Store: store, ExpireInterval: 1 << 40, MinOplogSize: 1 << 20, MaxOplogSize: 1 << 21, MinOplogAge: 1, MaxOplogAge: 3600e9 * 24}
 }
 
-func openWorld(file string) (*world, error) {
+func openWorld(file string) (*world, error) { return openWorldWith(file, nil) }
+
+// openWorldWith lets the caller adjust the engine options (e.g. a small change
+// log window).
+func openWorldWith(file string, mod func(*lungo.Options)) (*world, error) {
 	w := &world{file: file}
 	var store lungo.Store
 	if file != "" {
@@ -44,6 +48,9 @@ func openWorld(file string) (*world, error) {
 		store = lungo.NewMemoryStore()
 	}
 	w.opts = quietOptions(store)
+	if mod != nil {
+		mod(&w.opts)
+	}
 	client, engine, err := lungo.Open(nil, w.opts)
 	if err != nil {
 		return nil, err
